@@ -67,6 +67,13 @@ theorem server_rebuild_never_fails {s : DocSys} (hr : docSem.Reachable s) :
     docSem.Valid Doc.init s.log :=
   Sem.server_valid docLaws hr
 
+/-- no synchronisation step fails: every operation a client pulls is enabled at the moment that
+    client applies it (it applies the unseen operations of the other clients in log order on top of
+    its current document) -/
+theorem pulled_ops_never_fail {s : DocSys} (hr : docSem.Reachable s) (c : Nat) :
+    docSem.Valid (s.clients c).st (docSem.news s c) :=
+  Sem.pull_valid docLaws hr c
+
 /-- an enabled operation is one whose `Operation.Execute` returns no error -/
 theorem enabled_means_execute_ok {d : Doc} {a : Op} (h : Pre d a) : ∃ d', execute d a = .ok d' :=
   h.2.1
